@@ -11,8 +11,10 @@ import (
 )
 
 // roundtrip: the printers as serialisation format (C19).
-//   parsed:   text -> parse -> String() = s1 -> parse -> String() = s2           (s2 must equal s1)
-//   analyzed: text -> analyze -> String() = a1 -> analyze -> String() = a2       (a2 must equal a1)
+//
+//	parsed:   text -> parse -> String() = s1 -> parse -> String() = s2           (s2 must equal s1)
+//	analyzed: text -> analyze -> String() = a1 -> analyze -> String() = a2       (a2 must equal a1)
+//
 // together with whether each text parses / is accepted.
 type rtReq struct {
 	Src        string                     `json:"src"`
